@@ -157,22 +157,33 @@ def recipes():
     return R
 
 
-def random_nesting(rng, g, b, depth):
-    """seed-random nesting over square 3x3 operators (thorough tier)"""
+def random_nesting(rng, g, b, depth, top=True):
+    """seed-random nesting over square 3x3 operators (thorough tier).  Shape-changing wrappers (Cat, BatchRepeat)
+    are only applied at the top level so that every inner operator stays `*b x 3 x 3`."""
     import linear_operator.operators as O
     R = recipes()
-    base = ["Dense", "Diag", "ConstantDiag", "Toeplitz", "TriL", "TriU", "CholL", "Interp(Toeplitz,left)" if False else "Dense",
-            "Masked(Toeplitz,sym)" if False else "Toeplitz", "Identity", "Kernel" if False else "Diag"]
+    base = ["Dense", "Diag", "ConstantDiag", "Toeplitz", "TriL", "TriU", "CholL", "Identity", "Root", "Kernel3"]
+    if top:
+        w = rng.choice(["none", "none", "Cat", "BatchRepeat"])
+        n1, x = random_nesting(rng, g, b, depth, top=False)
+        if w == "Cat":
+            n2, y = random_nesting(rng, g, b, max(depth - 1, 0), top=False)
+            return f"Cat({n1},{n2})", O.CatLinearOperator(x, y, dim=rng.choice([-1, -2]))
+        if w == "BatchRepeat" and not isinstance(x, O.BatchRepeatLinearOperator):
+            return f"BatchRepeat({n1})", O.BatchRepeatLinearOperator(x, batch_repeat=torch.Size((2,) + (1,) * len(b)))
+        return n1, x
     if depth == 0:
         name = rng.choice(base)
+        if name == "Kernel3":
+            return name, O.KernelLinearOperator(g.T(*b, 3, 2), g.T(*b, 3, 2), covar_func=covar_lin, scale=g.T(*b, 1, 1))
         return name, R[name](g, b)
-    k = rng.choice(["Sum", "Matmul", "ConstantMul", "Interp", "Masked", "AddedDiag", "Cat", "Root", "BatchRepeat"])
-    n1, x = random_nesting(rng, g, b, depth - 1)
-    if k == "Sum":
-        n2, y = random_nesting(rng, g, b, depth - 1)
-        return f"Sum({n1},{n2})", O.SumLinearOperator(x, y)
+    k = rng.choice(["Sum", "Matmul", "ConstantMul", "Interp", "Masked", "AddedDiag", "Root", "PsdSum"])
+    n1, x = random_nesting(rng, g, b, depth - 1, top=False)
+    if k in ("Sum", "PsdSum"):
+        n2, y = random_nesting(rng, g, b, depth - 1, top=False)
+        return f"{k}({n1},{n2})", (O.SumLinearOperator if k == "Sum" else O.PsdSumLinearOperator)(x, y)
     if k == "Matmul":
-        n2, y = random_nesting(rng, g, b, depth - 1)
+        n2, y = random_nesting(rng, g, b, depth - 1, top=False)
         return f"Matmul({n1},{n2})", O.MatmulLinearOperator(x, y)
     if k == "ConstantMul":
         return f"ConstantMul({n1})", O.ConstantMulLinearOperator(x, torch.tensor(2.0, dtype=g.dt))
@@ -185,14 +196,7 @@ def random_nesting(rng, g, b, depth):
         if isinstance(x, O.DiagLinearOperator):
             return n1, x
         return f"AddedDiag({n1},Diag)", O.AddedDiagLinearOperator(x, O.DiagLinearOperator(g.P(*b, 3)))
-    if k == "Cat":
-        n2, y = random_nesting(rng, g, b, depth - 1)
-        return f"Cat({n1},{n2})", O.CatLinearOperator(x, y, dim=-1)
-    if k == "Root":
-        return f"Root({n1})", O.RootLinearOperator(x)
-    if isinstance(x, O.BatchRepeatLinearOperator):
-        return n1, x
-    return f"BatchRepeat({n1})", O.BatchRepeatLinearOperator(x, batch_repeat=torch.Size((2,) + (1,) * len(b)))
+    return f"Root({n1})", O.RootLinearOperator(x)
 
 
 # ----------------------------------------------------------------------------------------------- encoding
@@ -432,7 +436,9 @@ def observe(o, dt, g, solve=False):
     return res
 
 
-SOLVE_OK = ("Diag", "ConstantDiag", "Identity", "TriL", "TriU", "CholL", "KronDiag", "KronTriL", "Perm", "TriL(Diag)")
+SOLVE_OK = ("Diag", "ConstantDiag", "Identity", "TriL", "TriU", "CholL", "KronDiag", "KronTriL", "TriL(Diag)")
+# (Permutation is excluded: its generic `solve` goes through a Cholesky factorisation that only succeeds for the
+#  identity permutation, so whether it raises would depend on the random values.)
 
 
 def storages(enc, o):
@@ -574,8 +580,9 @@ def run_case(chk, enc, R, case, opnames, lines, expect, overridden):
             ok = True
             # (a) class / flag tree
             if opname == "evaluate_kernel" and "evaluate_kernel" in overridden.get(cls, []):
-                if type(r).__name__ != cls and not isinstance(r, type(o).__mro__[1]):
-                    ok = chk.violation(f"{cell}/flags", f"{desc}: evaluate_kernel returned {type(r).__name__}", pl) and False
+                # AddedDiag.evaluate_kernel returns `linear_op + diag`, whose class is chosen by the __add__ dispatch
+                # (e.g. Triangular + Diag -> Triangular): only shape, dtype and values are compared below.
+                chk.count("evaluate_kernel-override:" + type(r).__name__)
             else:
                 d = first_diff(fl_ref, flags(r, enc))
                 if d:
@@ -836,8 +843,14 @@ def run(chk):
                 chk.count("recipe-not-constructible")
                 continue
             case.recipe = "nest:" + nm
-            if "CholU" in nm:
+            try:
+                o = case.build(R)
+                o.to_dense()
+                (o @ torch.ones(o.shape[-1], 1, dtype=src)).shape
+            except Exception:  # noqa: the random generator produced an operator the library cannot evaluate at all
+                chk.count("nest-not-evaluable")
                 continue
+            chk.count("nest-depth:%d" % nest[1])
             run_case(chk, enc, R, case, OPS, lines, expect, overridden)
     for line, want in construct_lines(enc, R):
         lines.append(line)
